@@ -987,6 +987,27 @@ func load(repo string, pattern string) *packages.Package {
 	return pkgs[0]
 }
 
+// loadMany loads several packages of the repository in one type-checking universe.
+func loadMany(repo string, patterns []string) []*packages.Package {
+	cfg := &packages.Config{
+		Mode: packages.NeedName | packages.NeedFiles | packages.NeedSyntax | packages.NeedTypes | packages.NeedTypesInfo | packages.NeedImports | packages.NeedDeps,
+		Dir:  repo,
+	}
+	pkgs, err := packages.Load(cfg, patterns...)
+	if err != nil {
+		failf("load %v: %v", patterns, err)
+	}
+	if len(pkgs) != len(patterns) {
+		failf("load %v: %d packages", patterns, len(pkgs))
+	}
+	for _, p := range pkgs {
+		if len(p.Errors) > 0 {
+			failf("load %s: %v", p.PkgPath, p.Errors[0])
+		}
+	}
+	return pkgs
+}
+
 func main() {
 	repo := flag.String("repo", "/repo", "repository root")
 	out := flag.String("out", "", "output directory for Gen/*.v")
@@ -1008,7 +1029,15 @@ func main() {
 	}
 	os.MkdirAll(*out, 0o755)
 
-	root := newTranslator(load(*repo, "."))
+	all := loadMany(*repo, mPackages)
+	byName := map[string]*packages.Package{}
+	for _, p := range all {
+		byName[p.Name] = p
+	}
+	if byName["tchannel"] == nil || byName["typed"] == nil {
+		failf("packages tchannel / typed not loaded")
+	}
+	root := newTranslator(byName["tchannel"])
 
 	// GenConsts.v
 	var w bytes.Buffer
@@ -1018,7 +1047,7 @@ func main() {
 		root.emitVarField(vf[0], vf[1], &w)
 		n++
 	}
-	typed := newTranslator(load(*repo, "./typed"))
+	typed := newTranslator(byName["typed"])
 	n += typed.emitConsts("c_typed_", &w)
 	writeIfChanged(filepath.Join(*out, "GenConsts.v"), w.Bytes())
 	fmt.Printf("go2v: GenConsts.v %d constants\n", n)
@@ -1065,4 +1094,7 @@ func main() {
 	nw, nf := root.waitSitesSafe(&w, *repo)
 	writeIfChanged(filepath.Join(*out, "GenWaitSites.v"), w.Bytes())
 	fmt.Printf("go2v: GenWaitSites.v %d wait sites in %d functions\n", nw, nf)
+
+	// GenTypedBuf.v, GenMessages.v ...: byte-buffer methods and message codecs (methods.go)
+	emitMethodFiles(all, *repo, *out)
 }
